@@ -13,9 +13,7 @@ def returned_name(fnode) -> str:
 
 
 def loop_target_names(fnode, k: int) -> list[str]:
-    loops = [n for n in ast.walk(fnode) if isinstance(n, (ast.For, ast.AsyncFor, ast.While))]
-    loops.sort(key=lambda n: (n.lineno, n.col_offset))
-    n = loops[k]
+    n = _loops(fnode)[k]        # loops of this function only (not of nested functions), in source order: the engine's loop ordinal
     if isinstance(n, ast.While):
         return []
     return [x.id for x in ast.walk(n.target) if isinstance(x, ast.Name)]
